@@ -3,7 +3,7 @@
    All theorems hold for EVERY text and pattern (any length), every char_ops (Go's unicode tables are parameters)
    and every scheme satisfying the stated inequalities (the three shipped schemes do: GeneratedCheck). *)
 From Fzf Require Import Prelude AlgoSpec AlgoModel AlgoBasics PrefilterProofs V1Proofs OccursBasics AnchoredProofs ExactProofs.
-From Fzf Require Import V2Facts V2ScanBasics V2ScanPhase2 V2ScanProofs V2Glue.
+From Fzf Require Import V2Facts V2ScanBasics V2ScanPhase2 V2ScanProofs V2Glue V2Final.
 Open Scope Z_scope.
 
 (* the spec's decidable subsequence test means "a witness exists" *)
@@ -63,6 +63,35 @@ Proof.
   apply subseq_b_iff_witness. exact (v2_match_subseq_closed co sc cs nm fwd ib text pat wp cap s e score pos Hn H Hp).
 Qed.
 Print Assumptions v2_match_has_witness.
+
+(* every reported match is a genuine witness inside the reported range (M = 1, M >= 2, and the V1 fallback;
+   V2 proper lists positions in descending order, the fallback in ascending order) *)
+Theorem v2_sound : forall co sc cs nm fwd ib text pat cap s e score ps,
+  0 <= s_bw sc /\ 0 <= s_bd sc -> (ib = true -> Forall (fun c => 0 <= c < 128) text) ->
+  (forall c, c < 192 -> co_norm co c = c) -> pat <> [] ->
+  fuzzy_v2 co sc cs nm fwd ib text pat true cap = Ok (Match s e score (Some ps)) ->
+  (s <= e <= length text)%nat /\
+  witness co cs nm text pat (if v2_fallback text pat cap then ps else rev ps) = true /\
+  Forall (fun p => (s <= p < e)%nat) ps.
+Proof. exact v2_sound_final_sharp. Qed.
+Print Assumptions v2_sound.
+
+(* without positions: a non-empty range inside the line *)
+Theorem v2_range : forall co sc cs nm fwd ib text pat cap s e score pos,
+  0 <= s_bw sc /\ 0 <= s_bd sc -> (ib = true -> Forall (fun c => 0 <= c < 128) text) ->
+  (forall c, c < 192 -> co_norm co c = c) -> pat <> [] ->
+  fuzzy_v2 co sc cs nm fwd ib text pat false cap = Ok (Match s e score pos) ->
+  pos = None /\ (s < e <= length text)%nat.
+Proof. exact v2_range_final. Qed.
+Print Assumptions v2_range.
+
+(* FuzzyMatchV2 never crashes: no index out of range, for any text, pattern, flags and scratch capacity *)
+Theorem v2_total : forall co sc cs nm fwd ib text pat wp cap,
+  0 <= s_bw sc /\ 0 <= s_bd sc -> (ib = true -> Forall (fun c => 0 <= c < 128) text) ->
+  (forall c, c < 192 -> co_norm co c = c) ->
+  exists r, fuzzy_v2 co sc cs nm fwd ib text pat wp cap = Ok r.
+Proof. exact v2_total_final. Qed.
+Print Assumptions v2_total.
 
 (* one-character patterns: the reported position holds the character, range = that position, positions = [it] *)
 Theorem v2_single_sound : forall co sc cs nm fwd ib text p wp cap s e score pos,
